@@ -69,6 +69,15 @@ var ruleTable = []RuleDef{
 	{"R-XATTR-ROUNDTRIP", (*Model).ruleXATTRROUNDTRIP, "stored xattrs that are always re-encoded are decoded whenever they exist (no extra condition on the decode)"},
 	{"R-LASTID", (*Model).ruleLASTID, "LastInsertId is taken only from a plain INSERT (no ON CONFLICT / OR IGNORE), so it is the id of the row just inserted"},
 	{"R-VIEW-STALE", (*Model).ruleVIEWSTALE, "the synchronous index update before a view query is skipped only for the documented stale values (deny-list, not allow-list)"},
+	{"R-UNIQUE-LOOKUP", (*Model).ruleUNIQUELOOKUP, "a single-row read constrains a whole key (UNIQUE constraint or primary key) of every table it selects from"},
+	{"R-READ-CAS", (*Model).ruleREADCAS, "a read helper that returns documents.cas returns it on every path on which a row was read (a tombstone is reported with its CAS)"},
+	{"R-FEED-DELIVER", (*Model).ruleFEEDDELIVER, "the feed's delivery loop hands every event it pulls to the callback"},
+	{"R-POST-ALWAYS", (*Model).rulePOSTALWAYS, "the post function reaches the fan-out on every path, and the fan-out loop visits every registered feed"},
+	{"R-FEED-STOPPERS", (*Model).ruleFEEDSTOPPERS, "feeds found in the store-wide registry are closed only through the shutdown routine or the collection drop"},
+	{"R-MEMURL", (*Model).ruleMEMURL, "file-system operations on a bucket URL happen only after the parsed URL's mode parameter was found different from \"memory\""},
+	{"R-KEEP-NEEDS-ROW", (*Model).ruleKEEPNEEDSROW, "an option that keeps the row's value is honoured only on paths on which the row was read"},
+	{"R-XATTR-VALIDATE", (*Model).ruleXATTRVALIDATE, "the combined writer decodes every supplied xattr value before the transaction, whatever the options"},
+	{"R-ERR-DROPPED", (*Model).ruleERRDROPPED, "an error that is only ever compared with nil leads, on its non-nil branch, only to returns that report a failure"},
 	{"R-TIMER", (*Model).ruleTIMER, "a new expiry timer is created only when the manager holds none"},
 }
 
